@@ -27,9 +27,11 @@ MAX_CANDIDATES = 3  # IEEE confirmations + replays per configuration (further mi
 
 
 def _expected_labels(events) -> list:
-    lab = ['start']
+    lab = []
     for k, it in events:
-        if k == 'before':
+        if k == 'call':
+            lab.append('start')
+        elif k == 'before':
             lab.append('before')
         elif k == 'before_done':
             lab.append(0)
@@ -38,6 +40,21 @@ def _expected_labels(events) -> list:
         elif k == 'after_done':
             lab.append('end')
     return lab
+
+
+def _pass_of_column(events) -> list:
+    """For each expected trace column: the cumulative pass number whose snapshot it must hold (None for start/before/0/end)."""
+    out, p = [], 0
+    for k, it in events:
+        if k == 'call':
+            out.append(None)
+        elif k in ('before', 'before_done', 'after_done'):
+            out.append(None)
+        elif k == 'eval':
+            p += 1            # the scripted model counts a pass when it starts (a faulted pass still consumes its script entry)
+        elif k == 'eval_done':
+            out.append(p)
+    return out
 
 
 def _term(x):
@@ -103,7 +120,15 @@ def explore_trace_config(cfg: dict) -> dict:
             else:
                 # expected snapshot per label
                 after_offset = None
+                passes = _pass_of_column(st['log'])
+                n_start = 0
                 for col, lab in enumerate(want_labels):
+                    if lab == 'start':
+                        n_start += 1
+                    if n_start > 1 and (lab in ('start', 'before', 0) or (lab == 'end' and col != len(want_labels) - 1)):
+                        continue   # second solve of the period: its pre-pass snapshots are checked through the labels only
+                    if lab == 'end' and cfg.get('repeat') and col != len(want_labels) - 1:
+                        continue
                     if lab == 'start':
                         snap = start_vals
                     elif lab in ('before', 0):
@@ -115,8 +140,8 @@ def explore_trace_config(cfg: dict) -> dict:
                     elif lab == 'end':
                         snap = {n: mT.__dict__['_' + n][tc] for n in mT.names}
                     else:
-                        snap = st['snaps'][lab]
-                        if twin == 'snap_off' and lab == 1 and 2 in st['snaps']:
+                        snap = st['snaps'][passes[col]]
+                        if twin == 'snap_off' and passes[col] == 1 and 2 in st['snaps']:
                             snap = st['snaps'][2]
                     for row, n in enumerate(tnames):
                         a, b = _term(vals[row, col]), _term(snap[n])
@@ -218,10 +243,11 @@ def replay_trace_concrete(cfg: dict, inp: dict) -> dict:
     else:
         trace_arg = cfg['tracer']
         tnames = mT.names if trace_arg is True else ([trace_arg] if isinstance(trace_arg, str) else list(trace_arg))
+        passes = _pass_of_column(st['log'])
         for col, lab in enumerate(want):
             if isinstance(lab, int) and lab >= 1:
-                snap = st['snaps'][lab]
-                if cfg.get('twin') == 'snap_off' and lab == 1 and 2 in st['snaps']:
+                snap = st['snaps'][passes[col]]
+                if cfg.get('twin') == 'snap_off' and passes[col] == 1 and 2 in st['snaps']:
                     snap = st['snaps'][2]
                 for row, n in enumerate(tnames):
                     if not lf._same_bits(float(tr.values[row, col]), float(snap[n])):
@@ -256,6 +282,12 @@ def configs(tier: str):
                                                               offset=offset, finite=False, faults=faults,
                                                               hook_faults=faults and B <= 1, entry=entry, tracer=tracer,
                                                               post_write=(tracer is True)))
+    # the same period solved twice with tracing (reset=False): the trace keeps appending; solution unchanged
+    for tracer in (True, ['Y0']):
+        for errors, failures in (('raise', 'ignore'), ('ignore', 'ignore'), ('skip', 'ignore')):
+            for B in (1, 2) if tier == 'quick' else (1, 2, 3):
+                out.append(lf.default_cfg(N=1, B=B, errors=errors, failures=failures, t=1, offset='zero', finite=False, faults=False,
+                                          entry='solve_t', tracer=tracer, repeat=True, post_write=(tracer is True)))
     return out
 
 
@@ -281,7 +313,8 @@ def main() -> int:
         bounds={'max_iter': f"0..{2 if tier == 'quick' else 4}", 'check_variables': '1..2', 'span_length': 3,
                 'trace': [True, ['Y0'], 'Y0'], 'entry': ['solve_t', 'solve_period'],
                 'values': 'every Float64 per cell and pass; symbolic fault kinds', 'reset': False},
-        outside=['multi-period solve() with tracing (covered by C05 + this per-period result)', 'repeated solves of one period',
+        outside=['multi-period solve() with tracing is decided in C05 (traced twin) together with this per-period result',
+                 'more than two solves of one period',
                  'reset=True', 'pandas export of a Trace', "trace contents after a rejected call (a 'start' snapshot is written; not a solution observable)"],
         key_fn=finding_key, explore=explore_trace_config,
     )
